@@ -101,6 +101,8 @@ def check(ctx):
             if iv is None and isinstance(inner, tuple) and inner[:2] == ("attr", FAC):
                 # the counter itself, returned after a loop: every iteration's last assignment to it bounds the value
                 iv = counter_interval(tr1, e1, fq, inner[2])
+            if iv is None:
+                iv = loopvar_interval(tr1, inner)
             ctx.ob("ID-RANGE", "%s returns a value in 1..65535 (%s)" % (short(fq), show(inner)[:40]), iv is not None and 1 <= iv[0] and iv[1] <= 65535,
                    where=w, function=fq, construct="%s/range" % fq,
                    msg="the allocator returns %s whose value range is %s (must lie within 1..65535)" % (show(inner), iv))
@@ -174,6 +176,23 @@ def check(ctx):
                            msg="an iteration of the in-use scan over %s ends (%s) without testing the candidate identifier%s: identifiers of the "
                                "requests skipped there are handed out again while still unfinished" % (
                                    _regs_of(it), bp.exit_kind(), (" under the condition %s" % show(extra[0].term)[:80]) if extra else ""))
+            # the same scan written with any() over generator expressions: nothing can be skipped unless a generator filters
+            for cp in tr2.path.walk():
+                if cp.kind != "COMP" or not any(fr[2] == fq for fr in cp.stack):
+                    continue
+                its = cp.a["iters"]
+                if not any(isinstance(sub, tuple) and sub[:1] in (("regtop",), ("reg",)) for it in its for sub in subterms(it)):
+                    continue
+                n_scan += 1
+                filt = [c for cs in cp.a["ifs"] for c in cs]
+                elt = cp.a["elts"][0] if cp.a["elts"] else None
+                tests = isinstance(elt, tuple) and elt[:1] == ("cmp",) and elt[1] in ("==", "in")
+                ok = not filt and tests and cp.a.get("consumer") == "any"
+                ctx.ob("ID-SCAN", "%s: the in-use scan written as any(<test> for ..) visits every entry (%s:%d)" % (short(fq), cp.file, cp.line), ok,
+                       where="%s:%d" % (cp.file, cp.line), function=cp.func, construct="%s/scan-skips/%s" % (cp.func, _regs_of(its)),
+                       msg="the generator scanning %s %s: identifiers of the requests it skips are handed out again while still unfinished" % (
+                           _regs_of(its), "filters entries with %s" % show(filt[0])[:80] if filt else
+                           ("is not an any() over the identifier test (%s, consumed by %s)" % (show(elt)[:60], cp.a.get("consumer")))))
             ctx.floor("in-use scan iterations checked", n_scan, 2)
         regs_read = set()
         for x in reads:
@@ -196,6 +215,37 @@ def check(ctx):
 
 def _regs_of(it):
     return "+".join(sorted({sub[1] for sub in subterms(it) if isinstance(sub, tuple) and sub[:1] in (("regtop",), ("reg",))})) or "?"
+
+
+def loopvar_interval(tr, inner):
+    """Interval of a local that a loop modifies (term ('unk', 'name@loopN')): hull of the value it has at the end of every
+    iteration (each refined by the facts of that iteration: tested non-zero -> at least 1), and of its value before the loop
+    unless the loop test is known to hold on entry."""
+    if not (isinstance(inner, tuple) and len(inner) == 2 and inner[0] == "unk" and "@loop" in str(inner[1])):
+        return None
+    name, _, lid = inner[1].partition("@loop")
+    lp = next((x for x in tr.path.walk() if x.kind == "LOOP" and str(x.a.get("loop")) == lid), None)
+    if lp is None:
+        return None
+    vals = []
+    for bp in lp.a["body"]:
+        if bp.exit_kind() == "raise" or bp.st is None:
+            continue
+        v = bp.st.env.get(name)
+        iv = interval(v)
+        if iv is None:
+            return None
+        if iv[0] == 0 and bp.st.facts.get(("truthy", v)) is True:
+            iv = (1, iv[1])
+        vals.append(iv)
+    if lp.a.get("enters") is not True:
+        iv = interval((lp.a.get("pre") or {}).get(name))
+        if iv is None:
+            return None
+        vals.append(iv)
+    if not vals:
+        return None
+    return (min(v[0] for v in vals), max(v[1] for v in vals))
 
 
 def counter_interval(tr, e, fq, field):
